@@ -119,6 +119,34 @@ class TriggerDefinition:
                 run_ids.append(hasher.hexdigest())
             return run_ids
 
+    def generate_trigger_runs(
+        self, trigger_context: TriggerContext
+    ) -> list[tuple[str, TriggerContext]]:
+        """
+        Generate the runs of this trigger for the pending valid conditions.
+
+        A trigger that combines several conditions with AND runs once for all of
+        them together. A trigger on a single condition, or with OR logic, runs once
+        per satisfied occurrence, and each run only sees its own occurrence, so the
+        argument provider derives the arguments from that occurrence.
+
+        :param trigger_context: Context with valid conditions
+        :return: List of (trigger run ID, context of that run)
+        """
+        if self.logic == CompositeLogic.AND and len(self.condition_ids) > 1:
+            return [(self.generate_trigger_run_ids(trigger_context)[0], trigger_context)]
+        runs: list[tuple[str, TriggerContext]] = []
+        for valid_condition in trigger_context.valid_conditions.values():
+            if valid_condition.condition.condition_id not in self.condition_ids:
+                continue
+            run_context = TriggerContext(timestamp=trigger_context.timestamp)
+            run_context.add_valid_condition(valid_condition)
+            hasher = hashlib.sha256()
+            hasher.update(self.trigger_id.encode("utf-8"))
+            hasher.update(valid_condition.valid_condition_id.encode("utf-8"))
+            runs.append((hasher.hexdigest(), run_context))
+        return runs
+
     def should_trigger(self, trigger_context: TriggerContext) -> bool:
         """
         Determine if the task should be triggered based on the context.
